@@ -118,6 +118,7 @@ def stacked_same_variable(rng, sym):
 
 def shard(ctx):
     rng = ctx.rng
+    rp.IDENTITY_WRAP = 0.03     # leaves and compound nodes spelled through an identity-like notation (definition = bare metavariable)
     pool = gp.concrete_pool(rng, 200, 3, evs=(0, 1, 2), svs=(0, 1, 2), syms=(0,))
     pool_py = gp.concrete_pool(rng, 200, 3, evs=(0, 1, 2), svs=(0, 1, 2), syms=('a', 'b'))
     NINST = 12 if ctx.quick else 24
